@@ -37,10 +37,15 @@ package v0
 //                         2, 3 blocks; restarted node; InitialHeight 1, 2, 5, 1000; lying peers at
 //                         the tip): a CScen and a CHand case per scenario.
 //
-// A world's chain has InitialHeight ih; its j-th block (j = 1..L) has height ih+j-1.
+// A world's chain has InitialHeight ih; its j-th block (j = 1..L) has height ih+j-1.  A world may
+// change its validator set: its ABCI application returns validator updates (add / remove /
+// re-weight) from EndBlock of given positions; the chain is made with the repository's own
+// BlockExecutor.ApplyBlock, so the set of every height is the one updateState produced (an update
+// returned at position p takes effect at position p+2), in the order ValidatorSet keeps it.  The
+// commit of block j is signed by the set of j (state.Validators before j = LastValidators after).
 // Numbering used in the terms and in the replay descriptions:
-//   key k        validator at position k of the validator set; its address is "k+1"
-//   address a    0 = empty, 1..n = address of key a-1, >= 1000 = 20 bytes owned by nobody
+//   key k        the world's k-th key (global, whatever set it is in); its address is "k+1"
+//   address a    0 = empty, 1..G = address of key a-1, >= 1000 = 20 bytes owned by nobody
 //   chain        1 = the world's chain id, 2 = "c13-other"
 //   block id b   0 = BlockID{}, 1..L = the j-th canonical block, 100+j = a valid block of the
 //                j-th height that nobody committed (other txs), 300+j = canonical block j with a
@@ -90,13 +95,20 @@ func c13Time(t int64) time.Time { return c13Base.Add(time.Duration(t) * time.Sec
 
 // ------------------------------------------------------------------ world
 
+// a member of a validator set: key g with its voting power
+type c13Val struct{ g, power int64 }
+
+// EndBlock of the pos-th block returns the update (key g, power); 0 removes the validator
+type c13Upd struct{ pos, g, power int64 }
+
 type c13World struct {
-	n       int
 	ih      int64 // GenesisDoc.InitialHeight
-	privs   []ed25519.PrivKey
-	addrs   []types.Address
-	powers  []int64
-	total   int64
+	privs   []ed25519.PrivKey // by key
+	addrs   []types.Address   // by key
+	powers0 []int64           // genesis powers of keys 0..
+	upds    []c13Upd
+	sets    [][]c13Val // sets[j], j = 1..L+1: the validator set of the j-th height, in the order of ValidatorSet.Validators
+	abciUpd map[int64][]abci.ValidatorUpdate // by height
 	genDoc  *types.GenesisDoc
 	blocks  []*types.Block  // 1..L (index j: height ih+j-1)
 	ids     []types.BlockID // 1..L
@@ -124,8 +136,51 @@ type c13Exec struct {
 	blockExec  *sm.BlockExecutor
 }
 
-func c13NewExec(state sm.State) *c13Exec {
-	app := proxy.NewAppConns(proxy.NewLocalClientCreator(abci.NewBaseApplication()))
+// the application of a world: no-op but for the validator updates it returns from EndBlock
+type c13App struct {
+	abci.BaseApplication
+	upd map[int64][]abci.ValidatorUpdate
+}
+
+func (a *c13App) EndBlock(req abci.RequestEndBlock) abci.ResponseEndBlock {
+	return abci.ResponseEndBlock{ValidatorUpdates: a.upd[req.Height]}
+}
+
+func (w *c13World) set(j int64) []c13Val { return w.sets[j] }
+func (w *c13World) total(j int64) int64 {
+	t := int64(0)
+	for _, v := range w.sets[j] {
+		t += v.power
+	}
+	return t
+}
+
+func (w *c13World) String() string {
+	s := fmt.Sprintf("genesis powers %v", w.powers0)
+	for _, u := range w.upds {
+		s += fmt.Sprintf(", EndBlock(height %d) sets key%d:=%d", w.H(u.pos), u.g, u.power)
+	}
+	if len(w.upds) > 0 {
+		s += "; sets by height:"
+		for j := int64(1); j <= c13L; j++ {
+			if j == 1 || w.valsTerm(j) != w.valsTerm(j-1) {
+				s += fmt.Sprintf(" from %d %s", w.H(j), w.setDescr(j))
+			}
+		}
+	}
+	return s
+}
+
+func (w *c13World) setDescr(j int64) string {
+	var xs []string
+	for _, v := range w.sets[j] {
+		xs = append(xs, fmt.Sprintf("key%d:%d", v.g, v.power))
+	}
+	return "[" + strings.Join(xs, " ") + "]"
+}
+
+func c13NewExec(state sm.State, upd map[int64][]abci.ValidatorUpdate) *c13Exec {
+	app := proxy.NewAppConns(proxy.NewLocalClientCreator(&c13App{upd: upd}))
 	app.SetLogger(log.NewNopLogger())
 	if err := app.Start(); err != nil {
 		panic(err)
@@ -143,33 +198,46 @@ func c13Txs(h int64, salt byte) []types.Tx {
 	return []types.Tx{[]byte{byte(h), 1, salt}, []byte{byte(h), 2, salt}}
 }
 
-func c13BuildWorld(powers []int64, ih int64) *c13World {
+func c13BuildWorld(powers []int64, ih int64, upds ...c13Upd) *c13World {
 	n := len(powers)
-	type kp struct {
-		priv ed25519.PrivKey
-		pow  int64
+	G := n
+	for _, u := range upds {
+		if int(u.g) >= G {
+			G = int(u.g) + 1
+		}
 	}
+	w := &c13World{ih: ih, powers0: powers, upds: upds, bids: map[int64]types.BlockID{0: {}},
+		abciUpd: map[int64][]abci.ValidatorUpdate{}}
 	var gvals []types.GenesisValidator
-	byAddr := map[string]kp{}
-	for i := 0; i < n; i++ {
-		p := ed25519.GenPrivKeyFromSecret([]byte(fmt.Sprintf("verif-c13-%d-%d", n, i)))
-		gvals = append(gvals, types.GenesisValidator{PubKey: p.PubKey(), Power: powers[i]})
-		byAddr[string(p.PubKey().Address())] = kp{p, powers[i]}
+	byAddr := map[string]int64{}
+	for g := 0; g < G; g++ {
+		p := ed25519.GenPrivKeyFromSecret([]byte(fmt.Sprintf("verif-c13-%d-%d", n, g)))
+		w.privs = append(w.privs, p)
+		w.addrs = append(w.addrs, p.PubKey().Address())
+		byAddr[string(p.PubKey().Address())] = int64(g)
+		if g < n {
+			gvals = append(gvals, types.GenesisValidator{PubKey: p.PubKey(), Power: powers[g]})
+		}
 	}
-	w := &c13World{n: n, ih: ih, bids: map[int64]types.BlockID{0: {}}}
+	for _, u := range upds {
+		w.abciUpd[w.H(u.pos)] = append(w.abciUpd[w.H(u.pos)], types.TM2PB.NewValidatorUpdate(w.privs[u.g].PubKey(), u.power))
+	}
 	w.genDoc = &types.GenesisDoc{GenesisTime: c13Base, ChainID: c13Chain, Validators: gvals, InitialHeight: ih}
 	state, err := sm.MakeGenesisState(w.genDoc)
 	if err != nil {
 		panic(err)
 	}
-	for _, v := range state.Validators.Validators { // key k = position k
-		e := byAddr[string(v.Address)]
-		w.privs = append(w.privs, e.priv)
-		w.addrs = append(w.addrs, v.Address)
-		w.powers = append(w.powers, v.VotingPower)
-		w.total += v.VotingPower
+	// the set of the j-th height as the real state holds it
+	setOf := func(vs *types.ValidatorSet) []c13Val {
+		var xs []c13Val
+		for _, v := range vs.Validators {
+			xs = append(xs, c13Val{byAddr[string(v.Address)], v.VotingPower})
+		}
+		return xs
 	}
-	ex := c13NewExec(state)
+	w.sets = make([][]c13Val, c13L+2)
+	w.sets[1] = setOf(state.Validators)
+	ex := c13NewExec(state, w.abciUpd)
 	defer ex.app.Stop() //nolint:errcheck
 	w.blocks = make([]*types.Block, c13L+1)
 	w.ids = make([]types.BlockID, c13L+1)
@@ -195,7 +263,12 @@ func c13BuildWorld(powers []int64, ih int64) *c13World {
 			panic(err)
 		}
 		w.states = append(w.states, state.Copy())
-		last = w.realCommit(w.genuine(j, j)) // every validator signs block j
+		w.sets[j+1] = setOf(state.Validators)
+		// the set that signs block j is LastValidators of the state after it
+		if fmt.Sprint(setOf(state.LastValidators)) != fmt.Sprint(w.sets[j]) {
+			panic("verif c13: LastValidators after block j is not the set of j")
+		}
+		last = w.realCommit(w.genuine(j, j)) // every validator of the set of j signs block j
 		w.commits[j] = last
 	}
 	for x := int64(1); x <= 3; x++ {
@@ -247,7 +320,7 @@ func (w *c13World) addr(a int64) types.Address {
 	switch {
 	case a == 0:
 		return nil
-	case a >= 1 && int(a) <= w.n:
+	case a >= 1 && int(a) <= len(w.addrs):
 		return w.addrs[a-1]
 	default:
 		b := make([]byte, 20)
@@ -258,10 +331,13 @@ func (w *c13World) addr(a int64) types.Address {
 	}
 }
 
-func (w *c13World) valsTerm() string {
+// the validator set of the j-th height as (address, key, power), in its real order; j = 0: empty
+func (w *c13World) valsTerm(j int64) string {
 	var xs []string
-	for k := 0; k < w.n; k++ {
-		xs = append(xs, vg.Tup(vg.Z(int64(k+1)), vg.Z(int64(k)), vg.Z(w.powers[k])))
+	if j >= 1 {
+		for _, v := range w.sets[j] {
+			xs = append(xs, vg.Tup(vg.Z(v.g+1), vg.Z(v.g), vg.Z(v.power)))
+		}
 	}
 	return vg.L(xs)
 }
@@ -366,23 +442,23 @@ func (c *c13Commit) descr() string {
 func (w *c13World) genuine(j, bid int64) *c13Commit {
 	h := w.H(j)
 	c := &c13Commit{ch: h, cr: 0, cb: bid, chain: 1, bh: h, br: 0, bb: bid}
-	for k := 0; k < w.n; k++ {
-		ts := j*10 + int64(k)
-		c.slots = append(c.slots, c13Slot{flag: 2, addr: int64(k + 1), ts: ts, kind: 'B', k: int64(k), sts: ts})
+	for i, v := range w.sets[j] {
+		ts := j*10 + int64(i)
+		c.slots = append(c.slots, c13Slot{flag: 2, addr: v.g + 1, ts: ts, kind: 'B', k: v.g, sts: ts})
 	}
 	return c
 }
 
 // index of the slot at which the early-exit variant stops on a genuine commit
-func (w *c13World) lightStop() int {
+func (w *c13World) lightStop(j int64) int {
 	t := int64(0)
-	for k := 0; k < w.n; k++ {
-		t += w.powers[k]
-		if t > w.total*2/3 {
-			return k
+	for i, v := range w.sets[j] {
+		t += v.power
+		if t > w.total(j)*2/3 {
+			return i
 		}
 	}
-	return w.n - 1
+	return len(w.sets[j]) - 1
 }
 
 var c13CommitKinds = []string{
@@ -396,8 +472,10 @@ var c13CommitKinds = []string{
 func (w *c13World) mutate(kind string, fj, fid int64, r *vg.Rand) *c13Commit {
 	c := w.genuine(fj, fid)
 	fh := w.H(fj)
-	stop := w.lightStop()
-	late := w.n - 1 // a slot the early-exit variant never reads (needs stop < n-1)
+	set := w.sets[fj]
+	n := len(set)
+	stop := w.lightStop(fj)
+	late := n - 1 // a slot the early-exit variant never reads (needs stop < n-1)
 	absent := func(i int) { c.slots[i] = c13Slot{flag: 1} }
 	nilv := func(i int) {
 		s := c.slots[i]
@@ -406,19 +484,19 @@ func (w *c13World) mutate(kind string, fj, fid int64, r *vg.Rand) *c13Commit {
 	switch kind {
 	case "genuine":
 	case "some-absent":
-		for i := w.n - 1; i > stop; i-- {
-			if r.Bool() || i == w.n-1 {
+		for i := n - 1; i > stop; i-- {
+			if r.Bool() || i == n-1 {
 				absent(i)
 			}
 		}
 	case "some-nil":
-		for i := w.n - 1; i > stop; i-- {
-			if r.Bool() || i == w.n-1 {
+		for i := n - 1; i > stop; i-- {
+			if r.Bool() || i == n-1 {
 				nilv(i)
 			}
 		}
 	case "below-threshold":
-		for i := stop; i < w.n; i++ {
+		for i := stop; i < n; i++ {
 			if r.Bool() {
 				absent(i)
 			} else {
@@ -434,8 +512,8 @@ func (w *c13World) mutate(kind string, fj, fid int64, r *vg.Rand) *c13Commit {
 		nilv(late)
 		c.slots[late].kind, c.slots[late].raw = 'G', r.Bytes(64)
 	case "other-key":
-		i := r.Intn(w.n)
-		c.slots[i].k = int64((i + 1) % w.n)
+		i := r.Intn(n)
+		c.slots[i].k = set[(i+1)%n].g
 	case "commit-other-block":
 		ob := []int64{100 + fj, 201, 300 + fj}[r.Intn(3)]
 		c.cb, c.bb = ob, ob
@@ -448,29 +526,29 @@ func (w *c13World) mutate(kind string, fj, fid int64, r *vg.Rand) *c13Commit {
 	case "commit-other-height":
 		c.ch, c.bh = fh+1, fh+1
 	case "short":
-		c.slots = c.slots[:w.n-1]
+		c.slots = c.slots[:n-1]
 	case "padded":
 		c.slots = append(c.slots, c13Slot{flag: 2, addr: 1000, ts: 5, kind: 'G', raw: r.Bytes(64)})
 	case "foreign-addr":
-		i := r.Intn(w.n)
+		i := r.Intn(n)
 		c.slots[i].addr = 1000 + int64(r.Intn(5))
 	case "neighbour-addr":
-		i := r.Intn(w.n)
-		c.slots[i].addr = int64((i+1)%w.n) + 1
+		i := r.Intn(n)
+		c.slots[i].addr = set[(i+1)%n].g + 1
 	case "swap":
-		i := r.Intn(w.n - 1)
+		i := r.Intn(n - 1)
 		c.slots[i], c.slots[i+1] = c.slots[i+1], c.slots[i]
 	case "late-nil-flag-block-sig":
 		c.slots[late].flag = 3
 	case "ts-mismatch":
-		i := r.Intn(w.n)
+		i := r.Intn(n)
 		c.slots[i].ts += 1000
 	case "late-absent-to-garbage-nil":
 		absent(late)
 		if late-1 > stop {
 			absent(late - 1)
 		}
-		c.slots[late] = c13Slot{flag: 3, addr: int64(late + 1), ts: 7, kind: 'G', raw: r.Bytes(64)}
+		c.slots[late] = c13Slot{flag: 3, addr: set[late].g + 1, ts: 7, kind: 'G', raw: r.Bytes(64)}
 	case "empty-addr-late":
 		// cannot travel (CommitSig.ValidateBasic wants 20 bytes): use a foreign one instead
 		c.slots[late].addr = 1001
@@ -578,7 +656,7 @@ func c13NewConsState(ccfg *cfg.ConsensusConfig, state sm.State, ex *c13Exec) (cs
 
 // c13NewNode: a node that has applied and stored the first `start` blocks of the world
 func c13NewNode(w *c13World, start int64) *c13Node {
-	ex := c13NewExec(w.states[0].Copy())
+	ex := c13NewExec(w.states[0].Copy(), w.abciUpd)
 	state := w.states[0].Copy()
 	for j := int64(1); j <= start; j++ {
 		blk := w.blocks[j]
@@ -749,7 +827,8 @@ func (w *c13World) c13VerifySeen(j int64, c *types.Commit) (ok bool) {
 			ok = false
 		}
 	}()
-	if c == nil || c.Height != w.H(j) || !c.BlockID.Equals(w.ids[j]) || len(c.Signatures) != w.n {
+	set := w.sets[j]
+	if c == nil || c.Height != w.H(j) || !c.BlockID.Equals(w.ids[j]) || len(c.Signatures) != len(set) {
 		return false
 	}
 	tally := int64(0)
@@ -761,14 +840,14 @@ func (w *c13World) c13VerifySeen(j int64, c *types.Commit) (ok bool) {
 			return false
 		}
 		v := c.GetVote(int32(i))
-		if !w.privs[i].PubKey().VerifySignature(types.VoteSignBytes(c13Chain, v.ToProto()), s.Signature) {
+		if !w.privs[set[i].g].PubKey().VerifySignature(types.VoteSignBytes(c13Chain, v.ToProto()), s.Signature) {
 			return false
 		}
 		if s.ForBlock() {
-			tally += w.powers[i]
+			tally += set[i].power
 		}
 	}
-	return 3*tally > 2*w.total
+	return 3*tally > 2*w.total(j)
 }
 
 // connect adds peer number len+1 and lets it announce [base, height]
@@ -897,22 +976,30 @@ var c13Worlds []*c13World
 var c13Powers = [][]int64{{10, 10, 10, 10}, {40, 25, 20, 10, 5}, {7, 6, 5, 4, 3, 2, 1}}
 var c13IHs = []int64{1, 2, 5, 1000}
 
-// worlds 0..2: InitialHeight 1 with the three power vectors; 3..5: InitialHeight 2, 5, 1000;
-// thorough tier: the remaining combinations as well
+// worlds 0..2: InitialHeight 1 with the three power vectors, constant validator set;
+// 3..6: InitialHeight 2, 5, 1000, 1 with validator updates (a new strongest validator, removals,
+// re-weightings that reorder the set; the set changes at positions 3 and 5 / 3 and 4 / 3, 4 and
+// 5 / 4 and 5); thorough tier: constant sets for the remaining combinations and two more
+// changing worlds
 func c13GetWorlds() []*c13World {
 	if c13Worlds == nil {
 		for _, p := range c13Powers {
 			c13Worlds = append(c13Worlds, c13BuildWorld(p, 1))
 		}
-		for i, ih := range c13IHs[1:] {
-			c13Worlds = append(c13Worlds, c13BuildWorld(c13Powers[i], ih))
-		}
+		c13Worlds = append(c13Worlds,
+			c13BuildWorld(c13Powers[0], 2, c13Upd{1, 4, 25}, c13Upd{3, 1, 0}, c13Upd{3, 3, 30}),
+			c13BuildWorld(c13Powers[1], 5, c13Upd{1, 3, 0}, c13Upd{2, 4, 45}),
+			c13BuildWorld(c13Powers[2], 1000, c13Upd{1, 7, 4}, c13Upd{2, 6, 8}, c13Upd{3, 0, 0}),
+			c13BuildWorld(c13Powers[0], 1, c13Upd{2, 4, 25}, c13Upd{3, 0, 35}))
 		if vg.Thorough() {
 			for i, ih := range c13IHs[1:] {
-				for d := 1; d < 3; d++ {
+				for d := 0; d < 3; d++ {
 					c13Worlds = append(c13Worlds, c13BuildWorld(c13Powers[(i+d)%3], ih))
 				}
 			}
+			c13Worlds = append(c13Worlds,
+				c13BuildWorld(c13Powers[1], 1, c13Upd{1, 4, 30}, c13Upd{3, 0, 0}),
+				c13BuildWorld(c13Powers[2], 2, c13Upd{2, 7, 9}, c13Upd{2, 3, 0}, c13Upd{4, 7, 0}))
 		}
 	}
 	return c13Worlds
@@ -932,7 +1019,7 @@ func c13GenStep(k int, r *vg.Rand) c13StepCase {
 	ws := c13GetWorlds()
 	sc := c13StepCase{wi: k % len(ws)}
 	sc.w = ws[sc.wi]
-	sc.fh = 1 + int64(r.Intn(3))
+	sc.fh = 1 + int64(r.Intn(4))
 	sc.same = r.Intn(5) == 0
 	// directed regression cases first (F7 classes and the address class), then the cycle
 	directed := []string{"garbage-late-nil", "garbage-late-commit", "late-nil-flag-block-sig", "late-absent-to-garbage-nil", "foreign-addr", "genuine"}
@@ -969,7 +1056,7 @@ func c13GenStep(k int, r *vg.Rand) c13StepCase {
 		default:
 			sc.c = sc.w.genuine(sc.fh, sc.fh)
 			sc.c.cb = fid
-			last := sc.w.n - 1
+			last := len(sc.w.sets[sc.fh]) - 1
 			s := sc.c.slots[last]
 			sc.c.slots[last] = c13Slot{flag: 2, addr: s.addr, ts: s.ts, kind: 'O', k: s.k,
 				m: c13Msg{int64(tmproto.PrecommitType), 1, sc.w.H(sc.fh), 0, fid, s.ts}}
@@ -1089,17 +1176,17 @@ func TestVerifC13Step(t *testing.T) {
 		node.close()
 
 		cm, base, sigs := sc.c.terms()
-		term := vg.App("CStep", w.valsTerm(), vg.Z(1), vg.Z(w.lastH(sc.fh-1)),
+		term := vg.App("CStep", w.valsTerm(sc.fh), vg.Z(1), vg.Z(w.lastH(sc.fh-1)),
 			vg.Tup(vg.Z(fh), vg.Z(fid), vg.B(vok)), vg.Z(sc.fh), cm, base, sigs,
 			vg.Z(p1.num), vg.Z(p2.num),
 			vg.Tup(c13Rest(lc, lg, ln), c13Rest(fc, fg, fn), vg.N(ctv)),
 			vg.Tup(vg.B(saved && storedOK), vg.Z(ph), vg.ZL(stopped), vg.Tup(vg.Z(r1p), vg.B(r1b)),
 				vg.Tup(vg.Z(r2p), vg.B(r2b)), vg.N(ho)),
 			vg.Tup(vg.Z(w.ih), vg.N(hob.sres), vg.Z(hob.height), vg.N(hob.lcc)))
-		descr := fmt.Sprintf("world %d (powers %v, chain %q, InitialHeight %d), node has applied the first %d blocks (State.LastBlockHeight %d). Peer %d answers the request for height %d with the %s block (id %d, ValidateBlock ok=%v); peer %d answers the request for height %d with a block whose LastCommit is [%s] %s. "+
+		descr := fmt.Sprintf("world %d (%v, chain %q, InitialHeight %d), node has applied the first %d blocks (State.LastBlockHeight %d). Peer %d answers the request for height %d with the %s block (id %d, ValidateBlock ok=%v); peer %d answers the request for height %d with a block whose LastCommit is [%s] %s. "+
 			"Direct calls on that commit: VerifyCommitLight class %d, VerifyCommit class %d, CommitToVoteSet %d (0 ok,1 no +2/3,2 panic). Observed: block stored=%v, pool.height=%d, peers stopped=%v, requester[%d]=(peer %d, block %v), requester[%d]=(peer %d, block %v); "+
 			"consensus Reactor.SwitchToConsensus(state after the step, true) on the consensus state built at node start=%d (0 returned,1 panicked,2 not run,3 NewState at start panicked) %q, consensus height afterwards %d, LastCommit class %d (0 nil,1 = stored seen commit,2 other,3 n/a); consensus.NewState on the result=%d (0 ok,1 panic,2 not run)",
-			sc.wi, w.powers, c13Chain, w.ih, sc.fh-1, w.lastH(sc.fh-1), p1.num, fh, sc.firstKind, fid, vok, p2.num, fh+1, sc.commitKind, sc.c.descr(),
+			sc.wi, w, c13Chain, w.ih, sc.fh-1, w.lastH(sc.fh-1), p1.num, fh, sc.firstKind, fid, vok, p2.num, fh+1, sc.commitKind, sc.c.descr(),
 			lc, fc, ctv, saved && storedOK, ph, stopped, fh, r1p, r1b, fh+1, r2p, r2b, hob.sres, hob.msg, hob.height, hob.lcc, ho)
 		cs.Add(id, "step:"+sc.firstKind+":"+strings.SplitN(sc.commitKind, "/", 2)[0], sc.commitKind != "genuine", term, descr)
 	}
@@ -1182,7 +1269,7 @@ func c13HandScenarios(wi int) []c13Scen {
 		}
 		return ps
 	}
-	return []c13Scen{
+	ss := []c13Scen{
 		{"fresh-sync0", wi, 0, 1, h2(1)},
 		{"fresh-sync1", wi, 0, 2, h2(2)},
 		{"fresh-sync2", wi, 0, 3, h2(3)},
@@ -1200,6 +1287,23 @@ func c13HandScenarios(wi int) []c13Scen {
 		{"restart1-padded-at-3", wi, 1, 2, with(c13PeerSpec{3, 3, 3}, 2, 2)},
 		{"restart1-foreign-at-3", wi, 1, 2, with(c13PeerSpec{6, 3, 3}, 2, 2)},
 	}
+	if len(c13GetWorlds()[wi].upds) > 0 {
+		// the world changes its validator set at some of the positions 3, 4, 5: hand-overs at,
+		// one before and one after every such position, by a fresh and by a restarted node
+		ss = append(ss,
+			c13Scen{"fresh-sync4", wi, 0, 5, h2(5)},
+			c13Scen{"fresh-sync5", wi, 0, 6, h2(6)},
+			c13Scen{"restart2-sync0", wi, 2, 3, h2(3)},
+			c13Scen{"restart3-sync0", wi, 3, 4, h2(4)},
+			c13Scen{"restart3-sync1", wi, 3, 5, h2(5)},
+			c13Scen{"restart4-sync0", wi, 4, 5, h2(5)},
+			c13Scen{"restart4-sync1", wi, 4, 6, h2(6)},
+			c13Scen{"fresh-foreign-at-4", wi, 0, 3, with(c13PeerSpec{6, 4, 4}, 3, 2)},
+			c13Scen{"fresh-padded-at-5", wi, 0, 4, with(c13PeerSpec{3, 5, 5}, 4, 2)},
+			c13Scen{"restart2-foreign-at-4", wi, 2, 3, with(c13PeerSpec{6, 4, 4}, 3, 2)},
+			c13Scen{"restart3-padded-at-5", wi, 3, 4, with(c13PeerSpec{3, 5, 5}, 4, 2)})
+	}
+	return ss
 }
 
 type c13ScenResult struct {
@@ -1420,10 +1524,10 @@ func (sc c13Scen) descr(w *c13World, res *c13ScenResult, stream int) string {
 		pds = append(pds, fmt.Sprintf("peer %d %s announces heights [%d,%d] stopped=%v bad-answer-used=%v", i+1, c13ScriptNames[ps.script],
 			w.H(ps.base), w.H(ps.height), res.stopped[i], res.used[i]))
 	}
-	return fmt.Sprintf("scenario %s: world %d (powers %v, InitialHeight %d), node starts with the first %d blocks (State.LastBlockHeight %d, consensus.NewState at start ok=%v); %s; responses in PRNG order (stream %d). Bad answers that entered a requester: %v. "+
+	return fmt.Sprintf("scenario %s: world %d (%v, InitialHeight %d), node starts with the first %d blocks (State.LastBlockHeight %d, consensus.NewState at start ok=%v); %s; responses in PRNG order (stream %d). Bad answers that entered a requester: %v. "+
 		"Observed: stored ids by position %v, saved State.LastBlockHeight %d, SwitchToConsensus called by the blockchain reactor=%v with state.LastBlockHeight=%d (-1 = no call) skipWAL=%v -> %d (0 returned,1 panicked,2 not called,3 NewState at start panicked) %q, consensus height afterwards %d, LastCommit class %d (0 nil,1 = stored seen commit,2 other,3 n/a), running=%v; "+
 		"consensus.NewState on the result=%d (0 ok,1 panic,2 not run), seen commit of last block class %d, every stored block and seen commit verified by the harness=%v; pool requesters at the end (height:(peer, has block), peer -1 = none)%s",
-		sc.name, sc.wi, w.powers, w.ih, sc.start, res.h0, res.startOK, strings.Join(pds, "; "), stream, res.journal,
+		sc.name, sc.wi, w, w.ih, sc.start, res.h0, res.startOK, strings.Join(pds, "; "), stream, res.journal,
 		res.stored, res.h1, res.switched, res.hob.hs, res.hob.skipWAL, res.hob.sres, res.hob.msg, res.hob.height, res.hob.lcc, res.hob.running,
 		res.ho, res.seenClass, res.verified, res.reqs)
 }
@@ -1484,7 +1588,15 @@ func (sc c13Scen) handTerm(w *c13World, res *c13ScenResult) string {
 	if !res.startOK {
 		start, sres = 1, 2
 	}
-	return vg.App("CHand", w.valsTerm(), vg.Z(1), vg.Z(w.ih), vg.Z(res.h0), vg.Z(res.h1),
+	// (LastValidators, Validators) of the state at h0 and at h1
+	pair := func(h int64) string {
+		j := int64(0)
+		if h > 0 {
+			j = w.J(h)
+		}
+		return vg.Tup(w.valsTerm(j), w.valsTerm(j+1))
+	}
+	return vg.App("CHand", pair(res.h0), pair(res.h1), vg.Z(1), vg.Z(w.ih), vg.Z(res.h0), vg.Z(res.h1),
 		c13CommitOpt(res.seen0), c13CommitOpt(res.seen1), vg.B(res.verified),
 		vg.Tup(vg.N(start), vg.N(sres), vg.Z(res.hob.hs), vg.Z(res.hob.height), vg.N(res.hob.lcc), vg.B(res.hob.running), vg.N(res.ho)))
 }
@@ -1572,7 +1684,7 @@ func TestVerifC13Handover(t *testing.T) {
 	// random boundary syncs: start 0..2, 0..3 blocks to sync, a liar at or just above the honest tip
 	r := root.Fork(998)
 	for n := vg.Scale(len(scens)+8, len(scens)+200); len(scens) < n; {
-		start := int64(r.Intn(3))
+		start := int64(r.Intn(4))
 		tip := start + 1 + int64(r.Intn(4))
 		if tip > c13L-1 {
 			tip = c13L - 1
@@ -1593,7 +1705,7 @@ func TestVerifC13Handover(t *testing.T) {
 	for k := range scens {
 		idS[k], idH[k] = cs.NextID(), cs.NextID()
 	}
-	results, notes := c13RunAll(scens, root, 5000, func(k int) bool { return cs.Want(idS[k]) || cs.Want(idH[k]) }, vg.Scale(6, 8))
+	results, notes := c13RunAll(scens, root, 5000, func(k int) bool { return cs.Want(idS[k]) || cs.Want(idH[k]) }, 8)
 	cs.Notes = append(cs.Notes, notes...)
 	if len(notes) > 0 {
 		cs.Count("hand-scen:rerun-after-timing-dependent-shortfall", len(notes))
